@@ -30,6 +30,7 @@ package main
 import (
 	"errors"
 	"fmt"
+	"io"
 	"net"
 	"os"
 	"runtime"
@@ -99,6 +100,7 @@ type fconn struct {
 	side     int
 	id       int // index among the side's sockets
 	laddr    *net.UDPAddr
+	raddr    *net.UDPAddr // set for a connected socket (DialUDP)
 	mu       sync.Mutex
 	closed   bool
 	closedCh chan struct{}
@@ -335,15 +337,27 @@ func (c *fconn) SetDeadline(t time.Time) error {
 func (c *fconn) SetReadDeadline(t time.Time) error  { return c.SetDeadline(t) }
 func (c *fconn) SetWriteDeadline(t time.Time) error { return c.SetDeadline(t) }
 func (c *fconn) LocalAddr() net.Addr                { return c.laddr }
-func (c *fconn) RemoteAddr() net.Addr               { return nil }
-func (c *fconn) SetReadBuffer(int) error            { return nil }
-func (c *fconn) SetWriteBuffer(int) error           { return nil }
+func (c *fconn) RemoteAddr() net.Addr {
+	if c.raddr != nil {
+		return c.raddr
+	}
+
+	return nil
+}
+func (c *fconn) SetReadBuffer(int) error  { return nil }
+func (c *fconn) SetWriteBuffer(int) error { return nil }
 func (c *fconn) Read(b []byte) (int, error) {
 	n, _, err := c.ReadFrom(b)
 
 	return n, err
 }
-func (c *fconn) Write([]byte) (int, error) { return 0, errors.New("fake: not connected") }
+func (c *fconn) Write(b []byte) (int, error) {
+	if c.raddr == nil {
+		return 0, errors.New("fake: not connected")
+	}
+
+	return c.WriteTo(b, c.raddr)
+}
 func (c *fconn) ReadFromUDP(b []byte) (int, *net.UDPAddr, error) {
 	n, a, err := c.ReadFrom(b)
 	ua, _ := a.(*net.UDPAddr)
@@ -371,15 +385,16 @@ func (c *fconn) isClosed() bool {
 // ---- transport.Net of one side --------------------------------------------------------------
 
 type fnet struct {
-	w        *world
-	side     int
-	ip       net.IP
-	ifaces   []*transport.Interface
-	gate     chan struct{} // when non-nil, Interfaces() parks until it is closed (a slow OS call)
-	modes    []int         // fault modes of the sockets handed out by ListenUDP, by order of creation
-	closeErr []bool
-	mu       sync.Mutex
-	listened []*fconn
+	w             *world
+	side          int
+	ip            net.IP
+	ifaces        []*transport.Interface
+	gate          chan struct{} // when non-nil, Interfaces() parks until it is closed (a slow OS call)
+	tcpDialBlocks bool
+	modes         []int // fault modes of the sockets handed out by ListenUDP, by order of creation
+	closeErr      []bool
+	mu            sync.Mutex
+	listened      []*fconn
 }
 
 var errNotSupported = errors.New("fake: not supported")
@@ -464,12 +479,116 @@ func (n *fnet) ListenTCP(string, *net.TCPAddr) (transport.TCPListener, error) {
 	return nil, errNotSupported
 }
 func (n *fnet) Dial(string, string) (net.Conn, error) { return nil, errNotSupported }
-func (n *fnet) DialUDP(string, *net.UDPAddr, *net.UDPAddr) (transport.UDPConn, error) {
-	return nil, errNotSupported
+
+// DialUDP hands out a connected UDP socket towards a server that never answers.
+func (n *fnet) DialUDP(_ string, _ *net.UDPAddr, raddr *net.UDPAddr) (transport.UDPConn, error) {
+	c := n.w.newConn(n.side, n.ip, 0, 0, false)
+	c.raddr = raddr
+	c.log("SA" + c.name())
+	n.mu.Lock()
+	n.listened = append(n.listened, c)
+	n.mu.Unlock()
+
+	return c, nil
 }
-func (n *fnet) DialTCP(string, *net.TCPAddr, *net.TCPAddr) (transport.TCPConn, error) {
-	return nil, errNotSupported
+
+// DialTCP: tcpDial 0 connects at once to a server that accepts and then stays silent; tcpDial 1 is
+// a connect that never completes (it returns when the case is over).
+func (n *fnet) DialTCP(_ string, _ *net.TCPAddr, raddr *net.TCPAddr) (transport.TCPConn, error) {
+	if n.tcpDialBlocks {
+		n.w.ev.add("TD")
+		<-n.w.caseDone
+
+		return nil, errors.New("fake: connect timed out")
+	}
+	n.w.mu.Lock()
+	n.w.nextPort++
+	port := n.w.nextPort
+	n.w.mu.Unlock()
+	c := &ftcp{w: n.w, laddr: &net.TCPAddr{IP: n.ip, Port: port}, raddr: raddr, closedCh: make(chan struct{}), dlCh: make(chan struct{})}
+	n.w.ev.add("TC")
+
+	return c, nil
 }
+
+// ftcp is a TCP connection to a silent server: writes succeed, reads block until Close or a
+// deadline in the past.
+type ftcp struct {
+	w        *world
+	laddr    *net.TCPAddr
+	raddr    *net.TCPAddr
+	mu       sync.Mutex
+	closed   bool
+	closedCh chan struct{}
+	dlSet    bool
+	dlCh     chan struct{}
+}
+
+func (c *ftcp) Read([]byte) (int, error) {
+	c.mu.Lock()
+	dl := c.dlCh
+	c.mu.Unlock()
+	select {
+	case <-c.closedCh:
+		return 0, net.ErrClosed
+	case <-dl:
+		return 0, &net.OpError{Op: "read", Net: "tcp", Err: timeoutErr{}}
+	case <-c.w.caseDone:
+		return 0, net.ErrClosed
+	}
+}
+
+func (c *ftcp) Write(b []byte) (int, error) {
+	c.mu.Lock()
+	defer c.mu.Unlock()
+	if c.closed {
+		return 0, net.ErrClosed
+	}
+
+	return len(b), nil
+}
+
+func (c *ftcp) Close() error {
+	c.mu.Lock()
+	defer c.mu.Unlock()
+	if c.closed {
+		return net.ErrClosed
+	}
+	c.closed = true
+	c.w.ev.add("TX")
+	close(c.closedCh)
+
+	return nil
+}
+
+func (c *ftcp) SetDeadline(t time.Time) error {
+	c.mu.Lock()
+	defer c.mu.Unlock()
+	if !t.IsZero() && !t.After(time.Now()) {
+		if !c.dlSet {
+			c.dlSet = true
+			close(c.dlCh)
+		}
+	} else if c.dlSet {
+		c.dlSet = false
+		c.dlCh = make(chan struct{})
+	}
+
+	return nil
+}
+func (c *ftcp) SetReadDeadline(t time.Time) error      { return c.SetDeadline(t) }
+func (c *ftcp) SetWriteDeadline(time.Time) error       { return nil }
+func (c *ftcp) LocalAddr() net.Addr                    { return c.laddr }
+func (c *ftcp) RemoteAddr() net.Addr                   { return c.raddr }
+func (c *ftcp) CloseRead() error                       { return nil }
+func (c *ftcp) CloseWrite() error                      { return nil }
+func (c *ftcp) ReadFrom(io.Reader) (int64, error)      { return 0, errNotSupported }
+func (c *ftcp) SetLinger(int) error                    { return nil }
+func (c *ftcp) SetKeepAlive(bool) error                { return nil }
+func (c *ftcp) SetKeepAlivePeriod(time.Duration) error { return nil }
+func (c *ftcp) SetNoDelay(bool) error                  { return nil }
+func (c *ftcp) SetWriteBuffer(int) error               { return nil }
+func (c *ftcp) SetReadBuffer(int) error                { return nil }
 func (n *fnet) ResolveIPAddr(network, address string) (*net.IPAddr, error) {
 	return net.ResolveIPAddr(network, address)
 }
